@@ -26,6 +26,8 @@ fn pool() -> Vec<Vec<Step>> {
         vec![link("s"), act(&["@push(1)", "@push(2)"]), link("s"), act(&["@push(3)"])],
         vec![sync("m"), link("m"), act(&["@upd{k:1,v:1}"]), sync("m")],
         vec![sync("s"), link("s"), act(&["@push(1)", "@push(2)"]), link("s")],
+        // a command the lane cannot decode, in the middle of ordinary traffic
+        vec![link("m"), cmd("m", "@bogus"), cmd("m", "@update(key:1) 1"), sync("m"), cmd("m", "@remove(key:1)")],
         // the agent's handler fails: every lane fails, every open link must be closed
         vec![link("v"), sync("m"), act(&["@setv(5)", "@fail"])],
         vec![link("s"), act(&["@push(1)", "@fail", "@push(2)"])],
